@@ -33,8 +33,8 @@ func evalC07(h history, rec *hx.Rec) error {
 		if perr := hx.Try(func() { enc[i] = e.Bytes() }); perr != nil {
 			return perr
 		}
-		if !hx.SameTriple(before, hx.FromImpl(e)) {
-			return fmt.Errorf("Bytes() modified element %d", i)
+		if now := hx.FromImpl(e); !hx.G.IsValid(now) || !hx.G.Equal(before, now) {
+			return fmt.Errorf("Bytes() changed the group element held by slot %d", i)
 		}
 		want := hx.G.Compress(refs[i])
 		if enc[i] != want {
@@ -59,6 +59,9 @@ func evalC07(h history, rec *hx.Rec) error {
 			bs := banderwagon.ElementsToBytes(e)
 			if len(bs) != 1 || bs[0] != enc[i] {
 				return fmt.Errorf("slot %d: ElementsToBytes differs from Bytes()", i)
+			}
+			if now := hx.FromImpl(e); !hx.G.IsValid(now) || !hx.G.Equal(refs[i], now) {
+				return fmt.Errorf("slot %d: ElementsToBytes changed the group element held by its argument", i)
 			}
 		}
 	}
@@ -154,8 +157,8 @@ func evalC11(c c11Case, rec *hx.Rec) error {
 		if perr := hx.Try(func() { e.MapToScalarField(&vals[i]) }); perr != nil {
 			return perr
 		}
-		if !hx.SameTriple(refs[i], hx.FromImpl(e)) {
-			return fmt.Errorf("MapToScalarField modified element %d", i)
+		if now := hx.FromImpl(e); !hx.G.IsValid(now) || !hx.G.Equal(refs[i], now) {
+			return fmt.Errorf("MapToScalarField changed the group element held by slot %d", i)
 		}
 		want := hx.G.MapToScalar(refs[i])
 		if !hx.FrReduced(&vals[i]) || hx.FrToBig(&vals[i]).Cmp(want) != 0 {
@@ -193,8 +196,8 @@ func evalC11(c c11Case, rec *hx.Rec) error {
 			return fmt.Errorf("BatchMapToScalarField position %d (pool slot %d, batch length %d) = %s, single call = %s", k, idx%n, len(c.Batch),
 				hx.FrToBig(res[k]).Text(16), hx.FrToBig(&vals[idx%n]).Text(16))
 		}
-		if !hx.SameTriple(refs[idx%n], hx.FromImpl(elems[k])) {
-			return fmt.Errorf("BatchMapToScalarField modified its input element at position %d", k)
+		if now := hx.FromImpl(elems[k]); !hx.G.IsValid(now) || !hx.G.Equal(refs[idx%n], now) {
+			return fmt.Errorf("BatchMapToScalarField changed the group element at position %d", k)
 		}
 	}
 	// length mismatch is reported
